@@ -159,7 +159,7 @@ func Main(t tb) {
 		}
 		c := &Ctx{Tier: tier, Thorough: tier == "thorough", Seed: envInt("VERIF_SEED", 0), Shard: envInt("VERIF_SHARD", 0), NShards: envInt("VERIF_NSHARDS", 1), Params: map[string]string{}}
 		if b := envInt("VERIF_BUDGET_S", 0); b > 0 {
-			c.Deadline = time.Now().Add(time.Duration(b) * time.Second)
+			c.Deadline = vsched.BudgetNow().Add(time.Duration(b) * time.Second)
 		}
 		if rp := os.Getenv("VERIF_REPLAY"); rp != "" {
 			var r struct {
@@ -374,7 +374,7 @@ func OpSeq(c *Ctx, s OpSeqSpec) *Result {
 		var next [][]int
 		for _, h := range frontier {
 			for op := range s.Alphabet {
-				if !c.Deadline.IsZero() && time.Now().After(c.Deadline) {
+				if c.Expired() {
 					r.Exhaustive = false
 					r.Cap = fmt.Sprintf("time budget (depth %d completed)", completed)
 					goto done
@@ -440,4 +440,9 @@ done:
 		}
 	}
 	return r
+}
+
+// Expired reports whether the scenario's time budget is used up (measured in CPU time of this worker, see vsched.BudgetNow)
+func (c *Ctx) Expired() bool {
+	return !c.Deadline.IsZero() && vsched.BudgetNow().After(c.Deadline)
 }
